@@ -291,6 +291,21 @@ func init() {
 				}
 			}
 		}
+		// ~= over patterns of every syntactic class (alternation, classes, repetition, groups,
+		// anchors, escapes, flags) x subjects that do and do not match, alone and inside a condition
+		{
+			lit := func(s string) *xnode { return &xnode{leaf: "`" + s + "`", val: s} }
+			subjects := []string{"a", "b", "abc", "a|b", "a.c", "aab", "", "a+", "x", "A", "ab", "7"}
+			patterns := []string{"a|b", "x|c", "^a|b$", "a.c", "a+", "[ab]", "a{2}", "(a)(b)", `a\.b`, "a?b", "b$", "^$", "|", "a|", "(?i)a", `\d`, "[^a]", "a*", ".", "ab"}
+			for _, su := range subjects {
+				for _, pa := range patterns {
+					judge("re", &xnode{op: "~=", l: lit(su), r: lit(pa)})
+					if len(su) == 1 && len(pa) == 3 {
+						judge("re", &xnode{op: "&&", l: &xnode{op: "~=", l: lit(su), r: lit(pa)}, r: &xnode{op: "==", l: &xnode{op: "/", l: leaves[3], r: leaves[2]}, r: &xnode{leaf: "3", val: 3}}})
+					}
+				}
+			}
+		}
 		for _, a := range leaves {
 			judge("d1", &xnode{op: "!", l: a})
 			for _, b := range leaves {
